@@ -220,9 +220,19 @@ Proof. exact ref_nn_insensitive. Qed.
     [null_variable vv args]: a variable used by the arguments whose run-time value is null;
     [absent_item_variable vv args]: a variable without run-time value standing as an item of a list
       literal ([item_vars]);
-    [refusing_hook E]: an InputCoercion hook of the schema that returns an error.
-    [runtime_reason] is their disjunction.  In particular no literal, no default value and no
+    [hook_reached_args E argdefs args] / [hook_reached_defaults E defs raw]: an object literal of
+      the request (in an argument; in the default value of a variable without raw value) stands where
+      an input object type whose InputCoercion hook refuses is expected ([hook_hit], a walk over the
+      literal and its expected type).
+    [runtime_reason_precise] is their disjunction; [runtime_reason] is the coarser round-2 version
+    with [refusing_hook E] (some input object type of the schema has such a hook) in their place.  In particular no literal, no default value and no
     type mismatch is left to fail at run time. *)
+Theorem C05_static_dynamic_agree_precise : forall E dt site argdefs defs args raw,
+  schema_ok E argdefs -> request_ok defs raw ->
+  run_request all_fixed E dt site argdefs defs args raw = ORuntimeError ->
+  runtime_reason_precise E dt argdefs defs args raw = true.
+Proof. exact static_dynamic_agree_precise. Qed.
+
 Theorem C05_static_dynamic_agree : forall E dt site argdefs defs args raw,
   schema_ok E argdefs -> request_ok defs raw ->
   run_request all_fixed E dt site argdefs defs args raw = ORuntimeError ->
@@ -237,16 +247,20 @@ Theorem C05_argument_values_complete : forall E dt, env_ok E = true -> forall si
   static_ok all_fixed E dt site argdefs defs args = true ->
   coerce_variable_values all_fixed E dt defs raw = Ok vv ->
   coerce_argument_values all_fixed E dt argdefs args vv = Err ->
-  null_variable vv args || absent_item_variable vv args || refusing_hook E = true.
-Proof. exact argument_values_complete. Qed.
+  null_variable vv args || absent_item_variable vv args || hook_reached_args E argdefs args = true.
+Proof. exact argument_values_complete_precise. Qed.
 
 (** ... and CoerceVariableValues itself: a validated default value never fails to coerce *)
 Theorem C05_variable_values_complete : forall E dt, env_ok E = true -> forall site argdefs defs args raw,
   (forall def dflt, In def defs -> vd_default def = Some dflt -> lit_vars dflt = []) ->
   static_ok all_fixed E dt site argdefs defs args = true ->
   coerce_variable_values all_fixed E dt defs raw = Err ->
-  bad_variable_value all_fixed E dt defs raw || refusing_hook E = true.
-Proof. exact variable_values_complete. Qed.
+  bad_variable_value all_fixed E dt defs raw || hook_reached_defaults E defs raw = true.
+Proof. exact variable_values_complete_precise. Qed.
+
+(** the precise hook reason implies the coarse one *)
+Theorem C05_hook_hit_is_a_refusing_hook : forall E l t, hook_hit E l t = true -> refusing_hook E = true.
+Proof. exact hook_hit_coarse. Qed.
 
 (** a converse: the second reason is always fatal (a variable without a run-time value as an item
     of a list literal never coerces, whatever the types; graphql-js would make the item null) *)
@@ -262,7 +276,7 @@ Theorem C05_served_unless_runtime_reason : forall E dt site argdefs defs args ra
   schema_ok E argdefs -> request_ok defs raw -> env_closed E = true ->
   (forall ad, In ad argdefs -> sty_closed E (in_type (snd ad)) = true) ->
   static_ok all_fixed E dt site argdefs defs args = true ->
-  runtime_reason E dt defs args raw = false ->
+  runtime_reason_precise E dt argdefs defs args raw = false ->
   exists m, run_request all_fixed E dt site argdefs defs args raw = OCalled m /\
             ref_request E dt argdefs defs args raw = Some m.
 Proof. exact served_unless_runtime_reason. Qed.
@@ -312,6 +326,8 @@ Print Assumptions C05_reject_no_call.
 Print Assumptions C05_reference_is_served.
 Print Assumptions C05_request_no_panic.
 Print Assumptions C05_request_exact.
+Print Assumptions C05_static_dynamic_agree_precise.
+Print Assumptions C05_hook_hit_is_a_refusing_hook.
 Print Assumptions C05_static_dynamic_agree.
 Print Assumptions C05_argument_values_complete.
 Print Assumptions C05_variable_values_complete.
